@@ -96,6 +96,12 @@ func (p *networkSimplexProcessor) minSlackNonTreeEdge(edges []*graph.Edge, e *gr
 func (p *networkSimplexProcessor) feasibleTree(g *graph.DGraph) {
 	p.initLayers(g)
 	for {
+		// rebuild the tree from scratch: all nodes of the previous tree were shifted together, so its edges are still tight,
+		// but keeping the old tree flags lets a newly tight edge reach an old tree node before its old tree edge does,
+		// which closes a cycle in the tree
+		for _, e := range g.Edges {
+			e.IsInSpanningTree = false
+		}
 		treeNodes := tightTree(g.Nodes[0], graph.EdgeSet{}, graph.NodeSet{})
 		if len(treeNodes) == len(g.Nodes) {
 			break
